@@ -328,7 +328,7 @@ fn replay(which: Which, case: &Value) -> Vec<Viol> {
 }
 
 const ASSUME: &[&str] = &[
-    "values are compared at 3 fixed generic assignments (x,y real; a,b two cells each) and, for C03 and C12, 3 special ones (all 0; all 1; values equal to literal leaves); a point is skipped when the reference evaluator flags a branch cut of sqrt/^, an ill-conditioned intermediate (|z|<1e-8 or >1e8) or a near-zero divisor (DESIGN §4 C03)",
+    "values are compared at 3 fixed generic assignments (x,y real; a,b two cells each) and, for C03 and C12, 3 special ones (all 0; all 1; values equal to literal leaves); a point is skipped when the reference evaluator flags an operand of sqrt/^ with negative real part and a tiny but non-zero imaginary part (rounding noise next to the branch cut; an exactly zero imaginary part is compared), an ill-conditioned intermediate (|z|<1e-8 or >1e8) or a near-zero divisor (DESIGN §4 C03)",
     "finite lattice of literals {0,1,-1,2.5,1+2i,-2i,pi}; not all reals",
 ];
 
